@@ -279,10 +279,25 @@ func H_C02_structural() {
 		"{{ x " + f,
 		"{{ f(" + f + " }}",
 	}
-	c := ndChoice("case", len(cases))
-	set := c02Set(0)
-	set.loader.(*InMemLoader).Set("/x", "x")
-	_, err := c02Check(set, "/t.jet", cases[c])
+	// the same mistakes under custom delimiters whose first bytes differ from the comment's
+	custom := []string{
+		"t[[ x ]] [* " + f,
+		"[[ x ]]" + f + "[* c",
+		"[* " + f + "[[ x ]]",
+		"[[ if a ]]" + f,
+		f + "[[ end ]]",
+		"t [* c *] [[ \"" + f,
+	}
+	c := ndChoice("case", len(cases)+len(custom))
+	var err error
+	if c < len(cases) {
+		set := c02Set(0)
+		set.loader.(*InMemLoader).Set("/x", "x")
+		_, err = c02Check(set, "/t.jet", cases[c])
+	} else {
+		vfAssume(!hxContains(f, "[") && !hxContains(f, "]"))
+		_, err = c02Check(c02Set(1), "/t.jet", custom[c-len(cases)])
+	}
 	vfReach("checked")
 	vfAssert(err != nil, "structural mistake is reported")
 }
